@@ -58,6 +58,8 @@ func init() {
 			Run: func(P *Program, R *Report) { productMemoRule(P, R) }},
 		Rule{ID: "C09.g", Explain: "the values a history is made of are immutable: no function of the module mutates in place (big.Int mutator with it as receiver) an integer loaded from Event.E, Witness.E, Witness.U or Accumulator.Nu; new values are computed into fresh integers and assigned (one Update object, event list or accumulator is applied to many witnesses and re-verified by its hash chain).",
 			Run: func(P *Program, R *Report) { historyValuesImmutableRule(P, R) }},
+		Rule{ID: "C09.h", Explain: "a non-revoked witness stays valid: Witness.Update / Witness.Verify and everything below them return an error only for the specified reasons (bad signature or chain, window gap, common factor = revoked, failed final relation).",
+			Run: func(P *Program, R *Report) { treeRejectionsRule(P, R, "C09.h", "witness", "the witness update call tree") }},
 		Rule{ID: "C09.f", Explain: "Accumulator.Remove / newWitness: new Nu = Nu^(e^-1 mod Order) mod N, index+1, the event carries e, the new index and the parent's hash; a fresh witness is u = Nu^(e^-1) (symbolic terms; inverses checked).",
 			Run: func(P *Program, R *Report) { accumulatorRemoveRule(P, R) }},
 	)
